@@ -108,7 +108,7 @@ Print Assumptions C19_F4_refuted.
     strategy list, which panics exactly then) is answered by the recovery
     middleware with a non-success status *)
 Theorem C19_request_panic_is_non_success : forall h,
-  (exists status, recovery_mw h = status) /\ (h = Panicked -> success (recovery_mw h) = false).
+  (exists status, recovery_mw h = status) /\ (forall k, h = Panicked k -> success (recovery_mw h) = false).
 Proof. exact request_panic_is_non_success. Qed.
 Print Assumptions C19_request_panic_is_non_success.
 
